@@ -11,6 +11,9 @@
 (*          `sealed` = it decrypts under a key derived for this tunnel,      *)
 (*          `marker` = the frame contains the plaintext marker               *)
 (*   Recv   the frame reached the endpoint of the tunnel                     *)
+(*   Timeout the ingress gave up waiting for the answer to its OPEN (a data  *)
+(*          frame of that tunnel afterwards - or before any key is held -    *)
+(*          has no matching action: rejected)                                *)
 (*   Reset  next scenario                                                    *)
 (* Identifiers (request ids, stream ids, key fingerprints) are strings; the  *)
 (* private key of an endpoint is represented by the fingerprint of its       *)
@@ -36,8 +39,11 @@ Fwd(h) == ev.from = Path[h] /\ ev.to = Path[h + 1]
 Bwd(h) == ev.from = Path[h + 1] /\ ev.to = Path[h]
 BodyId(b) == IF "k" \in DOMAIN b THEN b.c ELSE b.plain
 
+\* `degenerate`: the key in the frame is all-zero or another degenerate encoding.  The endpoints of a traced tunnel are
+\* honest real agents: they must always offer a real key (for every kind), and relays must not replace it.
 TraceOpen ==
   /\ Consume("Open") /\ UNCHANGED fpOf /\ Fwd(ev.hop)
+  /\ ev.degenerate = FALSE
   /\ IF ev.hop = 1
        THEN IngressOpen(ev.t, ev.kind, ev.rid, ev.sid, ev.ipub, "honest")
        ELSE \E f \in links[ev.hop - 1] :
@@ -65,6 +71,7 @@ TraceDerive ==
 
 TraceAck ==
   /\ Consume("Ack") /\ UNCHANGED fpOf /\ Bwd(ev.hop)
+  /\ ev.degenerate = FALSE
   /\ IF ev.hop = LastHop
        THEN /\ tun[ev.t].xrid = Id(ev.rid) /\ tun[ev.t].rk = Id(ev.rpub) /\ tun[ev.t].xsid = Id(ev.sid)
             /\ ExitAck(ev.t)
@@ -88,6 +95,11 @@ TraceErr ==
 TraceFail ==
   /\ Consume("Fail") /\ UNCHANGED fpOf
   /\ \E f \in links[1] : f.t = ev.t /\ f.typ = "ERR" /\ InitFail(ev.t, f)
+
+\* the open call of the ingress returned because its deadline expired / it was cancelled; no key is held
+TraceTimeout ==
+  /\ Consume("Timeout") /\ UNCHANGED fpOf
+  /\ IngressOpenTimeout(ev.t)
 
 TraceData ==
   /\ Consume("Data") /\ UNCHANGED fpOf
@@ -124,7 +136,8 @@ TraceReset ==
   /\ knows' = [a \in Agents |-> {}]
   /\ derivs' = {}
 
-TraceNext == TraceOpen \/ TraceDerive \/ TraceAck \/ TraceErr \/ TraceFail \/ TraceData \/ TraceRecv \/ TraceReset
+TraceNext == TraceOpen \/ TraceDerive \/ TraceAck \/ TraceErr \/ TraceFail \/ TraceTimeout \/ TraceData \/ TraceRecv
+             \/ TraceReset
 TraceSpec == TraceInit /\ [][TraceNext]_<<vars, l, fpOf>>
 
 HighWater == TLCSet(1, IF l > TLCGet(1) THEN l ELSE TLCGet(1))
